@@ -71,8 +71,9 @@ Proof.
   rewrite C. cbn [negb andb]. apply IH; [congruence|exact H2].
 Qed.
 
-(** the decidable condition on a desired primary key: column parts, strictly increasing SeqNo, no
-    DESC, and the columns in the order the table lists them *)
+(** the decidable condition on a desired primary key: column parts naming columns of the table, strictly
+    increasing SeqNo, no DESC.  (Before the fix "sqlite inspection orders the parts of a composite primary
+    key by their position in the key" the columns also had to come in the order the table lists them.) *)
 Definition pk_syntactic (cols : list column) (pk : option index) : bool :=
   match pk with
   | None => true
@@ -81,12 +82,22 @@ Definition pk_syntactic (cols : list column) (pk : option index) : bool :=
       && match part_col_names (i_parts p) with
          | Some names =>
              forallb (fun q => negb (p_desc q)) (i_parts p)
-             && strs_eqb (map c_name (filter (fun c => existsb (str_eqb (c_name c)) names) cols)) names
+             && forallb (fun n => match find_col n cols with Some _ => true | None => false end) names
          | None => false
          end
       && match i_pred p with None => true | Some _ => false end
       && match i_comment p with None => true | Some _ => false end
   end.
+
+Lemma found_names cols names :
+  forallb (fun n => match find_col n cols with Some _ => true | None => false end) names = true ->
+  flat_map (fun n => match find_col n cols with Some c => [c_name c] | None => [] end) names = names.
+Proof.
+  induction names as [|n names IH]; simpl; intros H; [reflexivity|].
+  apply andb_true_iff in H. destruct H as [H1 H2]. rewrite (IH H2).
+  destruct (find_col n cols) as [c|] eqn:F; [|discriminate]. unfold find_col in F.
+  apply find_some in F. destruct F as [_ F]. apply str_eqb_eq in F. rewrite F. reflexivity.
+Qed.
 
 Lemma strs_eqb_eq a b : strs_eqb a b = true -> a = b.
 Proof.
@@ -102,32 +113,30 @@ Proof.
   apply andb_true_iff in H. destruct H as [H HD]. apply andb_true_iff in H. destruct H as [H HC].
   apply andb_true_iff in H. destruct H as [H HB].
   destruct (part_col_names (i_parts p)) as [names|] eqn:PN; [|discriminate].
-  apply andb_true_iff in HB. destruct HB as [ND EQ]. apply strs_eqb_eq in EQ.
+  apply andb_true_iff in HB. destruct HB as [ND EQ]. apply found_names in EQ.
   destruct (i_pred p) eqn:EP; [discriminate|]. destruct (i_comment p) eqn:EC; [discriminate|].
-  unfold pk_part, pk_diff. cbn [t_pk]. rewrite !add_or_skip_no_skip.
-  set (cols := filter (fun c => existsb (str_eqb (c_name c)) names) (t_cols t)) in *.
-  set (p1 := mkIndex PRIMARY true (number_parts 1 (map (fun c => mkPart 0 false (Some (c_name c)) None) cols)) None None None).
+  unfold pk_part, pk_diff. cbn [t_pk]. rewrite !add_or_skip_no_skip. rewrite EQ.
+  set (p1 := mkIndex PRIMARY true (number_parts 1 (map (fun n => mkPart 0 false (Some n) None) names)) None None None).
   assert (PC : parts_change sqlite_driver p1 p = 0%N).
   { unfold parts_change. cbn [i_parts p1].
-    assert (LEN : length (number_parts 1 (map (fun c => mkPart 0 false (Some (c_name c)) None) cols)) = length (i_parts p)).
+    assert (LEN : length (number_parts 1 (map (fun n => mkPart 0 false (Some n) None) names)) = length (i_parts p)).
     { assert (L1 : forall k l, length (number_parts k l) = length l) by (intros k l; revert k; induction l; simpl; intros; auto).
-      rewrite L1, map_length. rewrite <- (map_length c_name cols), EQ.
+      rewrite L1, map_length.
       clear -PN. revert names PN. induction (i_parts p) as [|q l IH]; simpl; intros names PN; [inversion PN; reflexivity|].
       destruct (p_col q); [|discriminate]. destruct (part_col_names l) as [r|]; [|discriminate]. inversion PN; subst. simpl. f_equal. apply (IH r eq_refl). }
     rewrite LEN, Nat.eqb_refl. cbn [negb].
     rewrite (sort_parts_sorted _ (number_parts_sorted 1 _)), (sort_parts_sorted _ (sorted_parts_b_ok _ H)).
     rewrite parts_loop_same; [reflexivity|exact LEN|].
     (* position by position *)
-    clear LEN. clearbody cols. clear -PN EQ ND. revert cols names PN EQ ND. generalize 1%N.
-    induction (i_parts p) as [|q l IH]; intros k cols names PN EQ ND.
+    clear LEN. clear -PN ND. revert names PN ND. generalize 1%N.
+    induction (i_parts p) as [|q l IH]; intros k names PN ND.
     - destruct (number_parts k _); reflexivity.
     - simpl in PN. destruct (p_col q) as [cn|] eqn:QC; [|discriminate].
-      destruct (part_col_names l) as [r|] eqn:PR; [|discriminate]. inversion PN as [E]. rewrite <- E in EQ. clear E PN.
-      destruct cols as [|c cols]; [discriminate|]. simpl in EQ. inversion EQ as [[E1 E2]].
+      destruct (part_col_names l) as [r|] eqn:PR; [|discriminate]. inversion PN as [E]. clear PN.
       simpl in ND. apply andb_true_iff in ND. destruct ND as [ND1 ND2].
       cbn [map number_parts combine forallb fst snd]. unfold pk_part_same at 1. cbn [p_desc p_col].
-      apply negb_true_iff in ND1. rewrite ND1, QC, E1, str_eqb_refl. cbn [Bool.eqb andb].
-      apply (IH (k + 1)%N cols r eq_refl E2 ND2). }
+      apply negb_true_iff in ND1. rewrite ND1, QC, str_eqb_refl. cbn [Bool.eqb andb].
+      apply (IH (k + 1)%N r eq_refl ND2). }
   assert (IC : index_change sqlite_driver p1 p = bit (negb (Bool.eqb true (i_unique p))) ChangeUnique).
   { unfold index_change. rewrite PC. cbn [i_unique i_comment i_pred p1 dd_index_attr_changed sqlite_driver].
     unfold sqlite_index_attr_changed. cbn [i_pred p1]. rewrite EP, EC. cbn.
